@@ -401,7 +401,7 @@ def store_replay(prop, job, fseed, args, seglines, kind):
     return path
 
 
-SERDE_EVENTS = {"Ser", "Deser", "Wrap", "SerU", "DeserU"}
+SERDE_EVENTS = {"Ser", "Deser", "Wrap", "SerU", "DeserU", "Inject"}
 
 
 def attribute(job, ev, rejects):
